@@ -82,6 +82,16 @@ def run(ctx):
             if a is not b:
                 special.append([{"name": "same_labels", "help": "h", "type": "GAUGE", "metrics": [dict({"labels": [["l", "v"]], "gauge": F(2.0)}, **a), dict({"labels": [["l", "v"]], "gauge": F(1.0)}, **b),
                                                                                                  dict({"labels": [["l", "a"]], "gauge": F(3.0)}, **b)]}])
+    # a custom collector whose SAMPLES carry a label its descriptors do not declare and that has the name of a registry common label
+    # (a relay forwarding remote samples): whatever gather() makes of it, both data models make the same
+    for common in ([["z0", "a"]], [["z0", "a"], ["A", "z"]]):
+        for own in ([["z0", "own"], ["p", "e"]], [["p", "e"], ["z0", "a"]], [["A", "x"], ["z0", "y"]]):
+            lit = [{"name": "relay", "help": "h", "type": "GAUGE", "metrics": [{"labels": own, "gauge": F(1.5)}, {"labels": [["p", "f"]], "gauge": F(2.5)}]}]
+            descs = [{"fq_name": "relay", "help": "h", "const": [], "var": ["p"]}]
+            calls = [{"op": "registry", "as": "r", "custom": True, "labels": common}, {"op": "custom", "as": "cc", "descs": descs, "families": lit}, {"op": "register", "reg": "r", "obj": "cc"},
+                     {"op": "gather", "reg": "r"}, {"op": "text_encode", "reg": "r", "mode": "to_string"}]
+            jobs.append({"id": len(jobs), "calls": calls})
+            meta.append((None, ()))
     for lit in special:
         descs = [{"fq_name": f["name"], "help": f.get("help") or "h", "const": [], "var": []} for f in lit]
         calls = [{"op": "registry", "as": "r"}, {"op": "custom", "as": "cc", "descs": descs, "families": lit}, {"op": "register", "reg": "r", "obj": "cc"},
